@@ -409,12 +409,14 @@ def Sketch.roundTrip (P : Params) (s : Sketch) : M Sketch := do
       let kv ← read k i
       let w ← readWord v i
       pure (acc ++ [(kv, w)])) []
+  let weights ← alloc .u64 n      -- std::vector<W, AllocW> weights(num_items, 0, allocator)
   let items ← alloc .item n
   loopUp (fun i => construct items i ((img.getD i (0, 0)).1)) n 0   -- sd.deserialize
   let d' ← foldUp (fun i (acc : Sketch) => Sketch.update P acc (.moveOf items i) ((img.getD i (0, 0)).2)) n 0 d
   -- items_deleter(num, destroy = true)
   loopUp (fun i => destroy items i) n 0
   dealloc items n
+  dealloc weights n
   pure { d' with totalWeight := s.totalWeight, offset := s.offset }
 
 end DS.Life.Fi
